@@ -55,7 +55,7 @@ def apply_entry(root, entry):
 
 def run_tests(root):
     cmd = [PY, "-m", "pytest", "-q", "-p", "no:cacheprovider", "--timeout=900", "-x", "-n", "4"] + stable_tests()
-    env = dict(os.environ, PYTHONDONTWRITEBYTECODE="1")
+    env = dict(os.environ, PYTHONDONTWRITEBYTECODE="1", OMP_NUM_THREADS="1", OPENBLAS_NUM_THREADS="1", MKL_NUM_THREADS="1")
     env.pop("VERDE_VERIF", None)
     proc = subprocess.run(cmd, cwd=root, env=env, capture_output=True, text=True)
     tail = (proc.stdout or "").strip().splitlines()[-1:] or [""]
